@@ -112,6 +112,7 @@ class ShardOutcome:
     def __init__(self):
         self.results = {}      # id -> list of result dicts
         self.cpu_violations = []  # ids whose translation exceeded the CPU budget
+        self.cpu_in_parser = []   # subset: UiDocument::parse alone exceeds the budget (time is spent in the tree-sitter call)
         self.inconclusive = []    # (id, why)
 
 
@@ -176,7 +177,7 @@ def run_harness(subcmd, jobs, extra_args=(), shards=None, results_per_job=None, 
     def run_chunk(k):
         chunk = chunks[k]
         res_by_id = {}
-        cpu_viol, inconc = [], []
+        cpu_viol, inconc, in_parser = [], [], []
         pos = 0
         attempt = 0
         while pos < len(chunk):
@@ -210,15 +211,22 @@ def run_harness(subcmd, jobs, extra_args=(), shards=None, results_per_job=None, 
                     res_by_id.setdefault(r["id"], []).append(r)
             elif s2 in (-signal.SIGXCPU, -signal.SIGKILL):
                 cpu_viol.append(culprit["id"])
+                if subcmd == "translate" and not culprit.get("path"):
+                    # attribute: does the parser call alone exceed the budget?
+                    r3, b3, s3, e3 = _run_jobs_file(
+                        subcmd, [dict(culprit, parse_only=True)], "%s_%d_%d_parse" % (tag, os.getpid(), k), extra_args, CPU_BUDGET_S, 600)
+                    if s3 in (-signal.SIGXCPU, -signal.SIGKILL):
+                        in_parser.append(culprit["id"])
             else:
                 inconc.append((culprit["id"], "qvh died with status %r: %s" % (s2, (e2 or "")[-500:])))
             pos += done + 1
-        return res_by_id, cpu_viol, inconc
+        return res_by_id, cpu_viol, inconc, in_parser
 
     with ThreadPoolExecutor(max_workers=shards) as ex:
-        for res_by_id, cpu_viol, inconc in ex.map(run_chunk, range(shards)):
+        for res_by_id, cpu_viol, inconc, in_parser in ex.map(run_chunk, range(shards)):
             out.results.update(res_by_id)
             out.cpu_violations.extend(cpu_viol)
+            out.cpu_in_parser.extend(in_parser)
             out.inconclusive.extend(inconc)
     for rs in out.results.values():
         for r in rs:
@@ -229,7 +237,9 @@ def run_harness(subcmd, jobs, extra_args=(), shards=None, results_per_job=None, 
 
 def translate(jobs, shards=None, tag="t"):
     """jobs: dicts {id, source, modes, reps, want, ...}. Returns ShardOutcome."""
-    args = ["--types"] + type_paths()
+    # a job may use up to 3 x its budget of the shard's CPU time before the shard is cut short; it is then re-run alone
+    # under the budget proper (per mode and repetition, hence the factor)
+    args = ["--job-cpu-ms", str(int(CPU_BUDGET_S * 1000 * 3)), "--types"] + type_paths()
     return run_harness("translate", jobs, args, shards,
                        results_per_job=lambda j: len(j.get("modes", ["generate"])) * j.get("reps", 1), tag=tag)
 
